@@ -486,7 +486,7 @@ func run(id, tier, onlyUnit, caseIdx string) int {
 		}
 		bin := filepath.Join(scratch, u.Check+".test")
 		args := []string{"test", "-c", "-tags", "verif", "-overlay", ov, "-modfile", mod, "-vet=off", "-o", bin}
-		if u.Race {
+		if unitRace(u) {
 			args = append(args, "-race")
 		}
 		args = append(args, "./"+u.Pkg)
@@ -534,7 +534,7 @@ func run(id, tier, onlyUnit, caseIdx string) int {
 				if caseIdx != "" {
 					env = append(env, "VERIF_CASE="+caseIdx)
 				}
-				if u.Race {
+				if unitRace(u) {
 					env = append(env, "GORACE=halt_on_error=0 log_path="+filepath.Join(outDir, fmt.Sprintf("race.%d", s)))
 				}
 				if u.MaxProcs > 0 {
@@ -572,7 +572,7 @@ func run(id, tier, onlyUnit, caseIdx string) int {
 		}
 		wg.Wait()
 
-		ui := map[string]any{"check": u.Check, "pkg": u.Pkg, "race": u.Race, "shards": shards, "build_s": round1(buildS), "point_sites": nsites}
+		ui := map[string]any{"check": u.Check, "pkg": u.Pkg, "race": unitRace(u), "shards": shards, "build_s": round1(buildS), "point_sites": nsites}
 		for s := 0; s < shards; s++ {
 			var r report
 			b, err := os.ReadFile(filepath.Join(outDir, fmt.Sprintf("%s.%d.json", u.Check, s)))
@@ -619,7 +619,7 @@ func run(id, tier, onlyUnit, caseIdx string) int {
 				}
 			}
 		}
-		if u.Race {
+		if unitRace(u) {
 			races, total := parseRaces(outDir, "race.")
 			ui["race_reports_total"] = total
 			ui["race_reports_distinct"] = len(races)
@@ -885,3 +885,6 @@ func writeManifest() {
 	}
 	fmt.Printf("MANIFEST.json written: %d checks, %d not_applicable\n", len(checks), len(nas))
 }
+
+// unitRace: the unit's own setting, or VERIF_FORCE_RACE=1 to run any unit under the race detector (exploration).
+func unitRace(u unit) bool { return u.Race || os.Getenv("VERIF_FORCE_RACE") == "1" }
